@@ -112,6 +112,19 @@ impl SipRewriter {
                 continue;
             }
 
+            // Semijoin reduction keeps the set of head tuples but not the number of body
+            // valuations behind each of them: an atom that only filters is folded into a
+            // helper rule together with its `_` columns. An aggregate counts those
+            // valuations (each `_` is an anonymous variable), so such rules are left alone.
+            let aggregates_over_wildcards = rule.head.has_aggregates()
+                && positive_atoms
+                    .iter()
+                    .any(|a| a.args.iter().any(|t| matches!(t, Term::Placeholder)));
+            if aggregates_over_wildcards {
+                new_rules.push(rule.clone());
+                continue;
+            }
+
             // Skip rules that are recursive (head relation appears in body)
             // or reference recursive relations  -  semijoin reduction can produce
             // empty intermediate results when the filtered relation is being
